@@ -1,6 +1,8 @@
 package props
 
 import (
+	"sync"
+	"io"
 	"github.com/protobom/protobom/pkg/native/serializers"
 	"bytes"
 	"fmt"
@@ -64,7 +66,30 @@ var c18Keys = []string{"driver-a", "driver-b"}
 // the keys under which the built-in drivers look their own options up (the driver's type name), and values of the
 // option types they declare
 var c18RealKeys = []string{"*serializers.SPDX23", "*serializers.CDX", "*unserializers.SPDX23", "*unserializers.CDX"}
-var c18AllKeys = append(append([]string{}, c18Keys...), c18RealKeys...)
+var c18AllKeys = append(append(append([]string{}, c18Keys...), c18RealKeys...), c18RecKey)
+
+// recSerializer is a registered driver that records the driver options it is handed by Serialize and by Render
+// (the built-in drivers ignore theirs, so only a driver of the caller's own can observe them).
+type recSerializer struct {
+	ser, ren []any
+}
+
+const c18RecKey = "*props.recSerializer"
+
+var c18RecFormat = formats.Format("application/x-verif-recording+json;version=1")
+var c18Rec = &recSerializer{}
+var c18RecOnce sync.Once
+
+func (s *recSerializer) Serialize(_ *sbom.Document, _ *native.SerializeOptions, o interface{}) (interface{}, error) {
+	s.ser = append(s.ser, o)
+	return "recorded", nil
+}
+
+func (s *recSerializer) Render(_ interface{}, w io.Writer, _ *native.RenderOptions, o interface{}) error {
+	s.ren = append(s.ren, o)
+	_, err := w.Write([]byte("{\"recorded\":true}\n"))
+	return err
+}
 
 func c18RealDriverOption(r *rand.Rand, writerSide bool) (string, any) {
 	k := c18RealKeys[r.Intn(2)]
@@ -532,7 +557,43 @@ func c18Case(c *core.C) {
 				callOpts.RenderOptions, callOpts.SerializeOptions = nil, nil
 				ind = -1
 			}
+			recording := r.Intn(4) == 0
+			var recWant any
+			if recording {
+				// a per-call write through a driver of the caller's own: the driver options that Serialize AND Render
+				// receive are the per-call set's (none when it has none), whatever the instance holds for that driver
+				c18RecOnce.Do(func() { writer.RegisterSerializer(c18RecFormat, c18Rec) })
+				callOpts.Format = c18RecFormat
+				f = c18RecFormat
+				if r.Intn(3) != 0 {
+					recWant = fmt.Sprintf("per-call-rec-%d", s)
+					callOpts.SetFormatOptions(c18RecKey, recWant)
+				}
+				if r.Intn(2) == 0 {
+					v := fmt.Sprintf("%s-own-rec-%d", m.name, s)
+					m.fmtOpts[c18RecKey] = v
+					m.w.Options.SetFormatOptions(c18RecKey, v)
+					trace = append(trace, fmt.Sprintf("%s.Options.SetFormatOptions(%s)", m.name, c18RecKey))
+				}
+				c18Rec.ser, c18Rec.ren = nil, nil
+				c.Cover("per-call-write-through-a-recording-driver")
+			}
 			err := m.w.WriteStreamWithOptions(c18Doc(), nopWC{&buf}, callOpts)
+			if recording {
+				c.Evals(1)
+				if err != nil || len(c18Rec.ser) != 1 || len(c18Rec.ren) != 1 {
+					c.Violatef("per-call-recording-driver-not-called", trace, "per-call write in the recording driver's format: err=%v, Serialize calls %d, Render calls %d (history %v)", err, len(c18Rec.ser), len(c18Rec.ren), trace)
+					return
+				}
+				if c18Rec.ser[0] != recWant || c18Rec.ren[0] != recWant {
+					c.Violatef("per-call-driver-options-not-used", trace, "per-call write with driver options %v: Serialize received %v, Render received %v (the instance holds %v) (history %v)", recWant, c18Rec.ser[0], c18Rec.ren[0], m.fmtOpts[c18RecKey], trace)
+					return
+				}
+				if !checkAll() {
+					return
+				}
+				continue
+			}
 			if sparse {
 				// afterwards the caller configures ITS OWN option set with the usual create-if-nil idiom; nobody else may change
 				if callOpts.RenderOptions == nil {
